@@ -95,11 +95,11 @@ func (dec *Decoder) readStringAsBytes(utf16Length int) (data []byte, safe bool) 
 		}
 		if !safe {
 			safe = true
-			// the length comes from the wire: never reserve more than the input can still deliver
-			// when it is all in memory, and never a product that overflowed
+			// the length comes from the wire: reserve at most one more buffer beyond what is at hand
+			// (never a product that overflowed); append grows the copy as the bytes really arrive
 			capacity := utf16Length * 3
-			if dec.reader == nil || capacity/3 != utf16Length || capacity < len(buf) {
-				capacity = len(buf)
+			if limit := len(buf) + len(dec.buf); capacity/3 != utf16Length || capacity > limit || capacity < len(buf) {
+				capacity = limit
 			}
 			data = make([]byte, 0, capacity)
 		}
